@@ -37,7 +37,7 @@ ANCHORS = [
     "stereomolgraph.graphs.crg:CondensedReactionGraph.add_formed_bond",
 ]
 REQUIRED_ANCHORS = ANCHORS
-REQUIRED = ["transitions", "bfs_states", "random_history_ops", "query_battery_runs", "absent_key_queries", "remove_atom_with_descriptors", "op:relabel_atoms", "op:remove_atom", "op:set_atom_stereo_change", "scale_histories"]
+REQUIRED = ["transitions", "bfs_states", "random_history_ops", "query_battery_runs", "absent_key_queries", "remove_atom_with_descriptors", "op:relabel_atoms", "op:remove_atom", "op:set_atom_stereo_change", "scale_histories", "op:bonds_from_bond_order_matrix"]
 CASE_TIMEOUT = 1600
 U = (0, 1, 2, 3)
 ABSENT = 7
@@ -341,6 +341,34 @@ def bfs(ctx, case):
 # ---------------------------------------------------------------------------
 # random long histories over a larger universe and all descriptor classes
 # ---------------------------------------------------------------------------
+def alphabet_elements(cls):
+    return sorted({op[2] for op in alphabet(cls) if op[0] == "add_atom"}, key=repr)
+
+
+def matrix_op(rng, n):
+    """bond-order matrix over atoms 0..n-1 as programs print them: full symmetric, one triangle only, or full with
+    numerical noise (entries of one pair on different sides of the threshold); integer or float entries"""
+    thr = rng.choice([0.5, 0.5, 0.25, 1.2])
+    kind = rng.choice(["symmetric", "lower", "upper", "noisy", "int"])
+    vals = [0.0, 0.0, 0.1, thr - 0.01, thr + 0.01, 0.9, 1.0, 1.5, 2.0, 3.0]
+    mat = [[0.0] * n for _ in range(n)]
+    for i in range(n):
+        for j in range(i):
+            v = rng.choice(vals)
+            if kind == "int":
+                v = int(round(v))
+            if kind in ("symmetric", "int"):
+                mat[i][j] = mat[j][i] = v
+            elif kind == "lower":
+                mat[i][j] = v
+            elif kind == "upper":
+                mat[j][i] = v
+            else:
+                mat[i][j] = v
+                mat[j][i] = max(0.0, v + rng.choice([0.0, 0.0, -0.02, 0.02]))
+    return ("bonds_from_bond_order_matrix", mat, thr, rng.random() < 0.5)
+
+
 def random_op(rng, M, cls, ids):
     from .. import gen
 
@@ -452,8 +480,18 @@ def random_history(ctx, case):
             return
     hist = []
     removals = desc_ops = 0
+    prelude = []
+    if not case.get("scale") and case["hseed"] % 3 == 0:
+        # a graph filled from a bond-order matrix (symmetric, triangular or numerically noisy), then edited further
+        n0 = rng.randint(2, 7)
+        prelude = [("add_atom", k, rng.choice(alphabet_elements(cls))) for k in range(n0)] + [matrix_op(rng, n0)]
     for i in range(case["length"]):
-        op = random_op(rng, M, cls, ids)
+        if prelude:
+            op = prelude.pop(0)
+        elif M["atoms"] and set(M["atoms"]) == set(range(len(M["atoms"]))) and rng.random() < 0.04:
+            op = matrix_op(rng, len(M["atoms"]))
+        else:
+            op = random_op(rng, M, cls, ids)
         if model.classify(M, cls, op) in ("must-raise", "skip"):
             continue
         hist.append(op)
